@@ -87,7 +87,7 @@ package basicnode
 //@   rejects[C12] ma != nil && ma.state != maState_initial
 //@   requires wip(ma) && ma.state == maState_initial
 //@   assigns ma.state, ma.w.t, cells(ma.w.t), ma.va.ma
-//@   ensures[C12] indom(old(ma.w.m), k) ==> va == nil && iserr(err, "datamodel.ErrRepeatedMapKey") && ma.state == maState_initial && ma.w.t == old(ma.w.t) && wip(ma)
+//@   ensures[C01,C12] indom(old(ma.w.m), k) ==> va == nil && iserr(err, "datamodel.ErrRepeatedMapKey") && ma.state == maState_initial && ma.w.t == old(ma.w.t) && wip(ma)
 //@   ensures[C01,C12] !indom(old(ma.w.m), k) ==> err == nil && va == iface(&ma.va) && ma.va.ma == ma && ma.state == maState_midValue
 //@         && len(ma.w.t) == old(len(ma.w.t)) + 1 && ma.w.t[len(ma.w.t)-1].k == k && wip(ma)
 //@   ensures[C01,C12] !indom(old(ma.w.m), k) ==> (forall i mathint :: 0 <= i && i < old(len(ma.w.t)) ==> ma.w.t[i] == old(ma.w.t[i]))
